@@ -94,7 +94,7 @@ class ContractMixin:
                     raise Unsupported(f"argument {what}: {v.kind} where {kind} expected")
             return v
         if is_obj(kind) and is_obj(v.kind):
-            return v
+            return v if v.kind.target.cls != "object" else V(kind, v.term)
         if is_list(kind) and is_obj(v.kind) and self.field_kind(v.kind.target.cls, "individuals") is not None:
             # a Population is iterable: iterating it iterates its `individuals` list (Population.__iter__)
             self.note_assumption("Population.__iter__ returns iter(self.individuals): a Population passed as an iterable is its individuals list")
